@@ -604,6 +604,11 @@ impl BuiltInFunction {
                     return Err(RuntimeError::from("median requires at least one number"));
                 }
 
+                // NaN has no place in the ordering: propagate it (like sum and avg do)
+                if nums.iter().any(|n| n.is_nan()) {
+                    return Ok(Value::Number(f64::NAN));
+                }
+
                 nums.sort_by(|a, b| a.partial_cmp(b).unwrap());
                 let len = nums.len();
                 if len % 2 == 0 {
@@ -626,6 +631,17 @@ impl BuiltInFunction {
                     .iter()
                     .map(|a| a.as_number())
                     .collect::<AnyhowResult<Vec<f64>>>()?;
+
+                if nums.is_empty() {
+                    return Err(RuntimeError::from(
+                        "percentile requires at least one number"
+                    ));
+                }
+
+                // NaN has no place in the ordering: propagate it (like sum and avg do)
+                if nums.iter().any(|n| n.is_nan()) {
+                    return Ok(Value::Number(f64::NAN));
+                }
 
                 nums.sort_by(|a, b| a.partial_cmp(b).unwrap());
                 let index = (p / 100.0 * (nums.len() - 1) as f64).round() as usize;
